@@ -409,6 +409,10 @@ def rlt_refute(ses, G1, H1, vars1, G2, H2, vars2, extra_ge, viol_gt, label, time
     cs += [lin(e) >= 0 for e in extra_ge]
     neg = [lin(v) > 0 for v in viol_gt]
     # equalities first: Gaussian elimination (solve-eqs) shrinks the system ~50x before simplex sees it
+    if len(cs) > 800:
+        # large systems: separate process under a hard limit (exact simplex does not poll z3's timer)
+        res = ses.solve_external(cs + [z3.Or(neg)], timeout_ms=timeout_ms, tactic=('simplify', 'solve-eqs', 'smt'), label=label + '/rlt')
+        return res, cs
     res = ses.solve(cs + [z3.Or(neg)], timeout_ms=timeout_ms, tactic=('simplify', 'solve-eqs', 'smt'), label=label + '/rlt')
     if res[0] == 'unknown':
         res = ses.solve(cs + [z3.Or(neg)], timeout_ms=timeout_ms, label=label + '/rlt-plain')
@@ -443,7 +447,8 @@ def rlt_block(ses, cp, blk, G2, H2, T2, vars2, viol, label, kind, sample=None, t
         st.obligations += 1
         st.kinds[kind] = st.kinds.get(kind, 0) + 1
         st.twins += 1
-        r2, _ = ses.solve(lincs, timeout_ms=timeout_ms or 20000, tactic=('simplify', 'solve-eqs', 'smt'), label=label + '/rlt-twin')
+        r2, _ = (ses.solve_external if len(lincs) > 800 else ses.solve)(
+            lincs, timeout_ms=timeout_ms or 20000, tactic=('simplify', 'solve-eqs', 'smt'), label=label + '/rlt-twin')
         if r2 == 'sat':
             st.twins_ok += 1
         elif r2 == 'unsat':
